@@ -54,11 +54,12 @@ pub struct StepW {
     pub awaitfutsync: u32,
     pub awaitfutdesync: u32,
     pub panic: u32,
+    pub selfwake: u32,
 }
 
 impl Default for StepW {
     fn default() -> StepW {
-        StepW { touch: 8, yield_: 8, nested_desync: 2, nested_sync: 1, nested_futdesync: 1, release: 0, opengate: 1, blockongate: 0, awaitgate: 6, awaitfutsync: 1, awaitfutdesync: 1, panic: 0 }
+        StepW { touch: 8, yield_: 8, nested_desync: 2, nested_sync: 1, nested_futdesync: 1, release: 0, opengate: 1, blockongate: 0, awaitgate: 6, awaitfutsync: 1, awaitfutdesync: 1, panic: 0, selfwake: 2 }
     }
 }
 
@@ -152,6 +153,7 @@ fn leaf_steps(w: &StepW, len: (usize, usize), in_future: bool) -> BoxedStrategy<
     let mut alts: Vec<(u32, BoxedStrategy<Step>)> = vec![(w.touch.max(1), Just(Step::Touch).boxed()), (w.yield_, Just(Step::Yield).boxed()), (w.opengate, any::<u8>().prop_map(|g| Step::OpenGate { g }).boxed())];
     if in_future {
         alts.push((w.awaitgate, any::<u8>().prop_map(|g| Step::AwaitGate { g }).boxed()));
+        alts.push((w.selfwake, Just(Step::SelfWake).boxed()));
     } else {
         alts.push((w.blockongate, any::<u8>().prop_map(|g| Step::BlockOnGate { g }).boxed()));
     }
@@ -176,6 +178,7 @@ fn steps(w: &StepW, len: (usize, usize), in_future: bool, depth: usize) -> Boxed
     ];
     if in_future {
         alts.push((w.awaitgate, any::<u8>().prop_map(|g| Step::AwaitGate { g }).boxed()));
+        alts.push((w.selfwake, Just(Step::SelfWake).boxed()));
         alts.push((w.awaitfutsync, (any::<u8>(), inner_fut.clone()).prop_map(|(o, body)| Step::AwaitFutSync { o, body, id: 0 }).boxed()));
         alts.push((w.awaitfutdesync, (any::<u8>(), inner_fut.clone()).prop_map(|(o, body)| Step::AwaitFutDesync { o, body, id: 0 }).boxed()));
     } else {
@@ -188,7 +191,7 @@ pub fn op_strategy(p: &Profile) -> BoxedStrategy<Op> {
     let w = &p.opw;
     let plain = steps(&p.stepw, p.body, false, 2);
     let fut = steps(&p.stepw, p.body, true, 2);
-    let pipe_body = vec(union(vec![(4, Just(Step::Touch).boxed()), (3, Just(Step::Yield).boxed()), (2, any::<u8>().prop_map(|g| Step::AwaitGate { g }).boxed())]), 0..=2).boxed();
+    let pipe_body = vec(union(vec![(4, Just(Step::Touch).boxed()), (3, Just(Step::Yield).boxed()), (2, any::<u8>().prop_map(|g| Step::AwaitGate { g }).boxed()), (1, Just(Step::SelfWake).boxed())]), 0..=2).boxed();
     let u8s = any::<u8>();
     union(vec![
         (w.desync, (u8s, plain.clone()).prop_map(|(o, body)| Op::Desync { o, body, id: 0 }).boxed()),
@@ -237,8 +240,9 @@ pub fn cfg_strategy(p: &Profile) -> BoxedStrategy<Cfg> {
         pct(p.double_wake_pct),
         pct(40),
         pct(50),
+        pct(15),
     )
-        .prop_map(move |((pool, objects, gates, streams), q, unlock_points, (sp, spv), (po, pov), root_holds, double_wake, gate_keep_all, stream_always_register)| Cfg {
+        .prop_map(move |((pool, objects, gates, streams), q, unlock_points, (sp, spv), (po, pov), root_holds, double_wake, gate_keep_all, stream_always_register, unwinding_drops)| Cfg {
             pool,
             objects,
             gates,
@@ -253,6 +257,7 @@ pub fn cfg_strategy(p: &Profile) -> BoxedStrategy<Cfg> {
             stream_always_register,
             keep_going_after_early_destroy: keep_going,
             despawn_without_quiescence: false,
+            unwinding_drops,
         })
         .boxed()
 }
